@@ -101,6 +101,7 @@ func init() {
 			}
 			c.Clause("C02-D1")
 			ruleCodeTable(c, d)
+			ruleEnvelopeErrorOnlyFromJSON(c)
 			c.Clause("C02-D2")
 			ruleInvalidNeverRuns(c, d)
 			ruleInvokeSites(c, d)
@@ -142,6 +143,7 @@ func init() {
 			ruleSendWholeMessages(c)
 			c.Clause("C13-D5")
 			ruleParseRequests(c)
+			ruleEnvelopeErrorOnlyFromJSON(c)
 			ruleJSONWhitespace(c)
 		},
 	})
@@ -167,6 +169,9 @@ func init() {
 			ruleServerErrorMapping(c, d)
 			c.Clause("C14-D5")
 			ruleClientErrorMapping(c)
+			ruleEveryPeerErrorFiltered(c)
+			ruleWatcherReportsCtxErr(c, "client")
+			ruleWatcherReportsCtxErr(c, "server")
 			ruleFilterErrorTable(c)
 		},
 	})
